@@ -21,7 +21,8 @@ EXTENDS Naturals, Sequences, FiniteSets, TLC
 CONSTANTS EvilConn,     \* connections of a peer that holds no paired long-term key
           LegitConn,    \* connections of the legitimate, paired controller
           FinishKinds,  \* slice of the finish alphabet
-          StartLens,    \* slice of the start alphabet: "ok" | "short" | "long" | "empty"
+          StartLens,    \* slice of the start alphabet: "ok" | "short" | "long" | "empty" | "sameA" (valid, the controller
+                        \* uses the ephemeral key of its previous exchange on this connection again)
           Ops,          \* slice of the protected-operation alphabet
           Noise,        \* slice of pair-setup noise: "psstart" | "pswrong" | "pszero"
           MaxExch,      \* accepted starts per connection (bounds the model)
@@ -40,11 +41,14 @@ VARIABLES vstep,     \* [Conn -> {"Waiting","StartResp"}]      verify.step
           subs,      \* SUBSET Conn   connections subscribed to it
           cb,        \* 0..2   application callbacks fired (saturating)
           sok,       \* SUBSET Conn  ghost: the latest pair-verify message on the connection was an ACCEPTED start
+          same,      \* [Conn -> BOOLEAN]  the material of the current exchange (both ephemeral keys, hence every derived key) is
+                     \* that of the previous exchange on this connection: only when the controller reused its key AND the
+                     \* accessory did not create a new key pair for the exchange (guard accessory_key_fresh_per_exchange)
           cache,     \* [Conn -> name]  the first stored name a finish on this connection claimed: hidden state that only an
                      \* implementation WITHOUT the guard key_looked_up_per_finish has (an entity cached per connection)
           last       \* the last step: [c, a, p, r, ev]  (r = reply class, ev = connections that got an EVENT)
 
-vars == <<vstep, exch, mode, verified, open, legitPaired, extra, val, subs, cb, cache, sok, last>>
+vars == <<vstep, exch, mode, verified, open, legitPaired, extra, val, subs, cb, cache, sok, same, last>>
 
 Guard(g) == g \notin Weak
 ProtectedOps == {"GetAcc", "GetChar", "PutVal", "PutSub", "Resource", "AddPair", "RemPair"}
@@ -53,6 +57,7 @@ Init == /\ vstep = [c \in Conn |-> "Waiting"] /\ exch = [c \in Conn |-> 0]
         /\ mode = [c \in Conn |-> "plain"] /\ verified = [c \in Conn |-> FALSE]
         /\ open = [c \in Conn |-> TRUE]
         /\ legitPaired = TRUE /\ extra = FALSE /\ val = 0 /\ subs = {} /\ cb = 0 /\ cache = [c \in Conn |-> "none"] /\ sok = {}
+        /\ same = [c \in Conn |-> FALSE]
         /\ last = [c |-> "none", a |-> "none", p |-> "none", f |-> "none", r |-> "none", ev |-> {}]
 
 Reply(c, a, p, f, r, ev) == last' = [c |-> c, a |-> a, p |-> p, f |-> f, r |-> r, ev |-> ev]
@@ -63,19 +68,21 @@ Plain(c) == open[c] /\ mode[c] = "plain"
 \* ---- pair-verify start: verify_server_controller.go:59-65, 89-135
 VStart(c, len) ==
   /\ Plain(c) /\ len \in StartLens
-  /\ len = "ok" => exch[c] < MaxExch
+  /\ len \in {"ok", "sameA"} => exch[c] < MaxExch
+  /\ len = "sameA" => exch[c] >= 1
   /\ IF vstep[c] # "Waiting"
      THEN /\ vstep' = [vstep EXCEPT ![c] = "Waiting"]            \* :61 reset, error
-          /\ Reply(c, "VStart", len, "plain", "HttpError", {}) /\ UNCHANGED exch
-     ELSE IF len # "ok"
+          /\ Reply(c, "VStart", len, "plain", "HttpError", {}) /\ UNCHANGED <<exch, same>>
+     ELSE IF len \notin {"ok", "sameA"}
      \* a start with a key of the wrong length is rejected and leaves the machine waiting (guard
      \* rejected_start_keeps_waiting); without the guard the step is advanced before the length is looked at
      THEN /\ vstep' = [vstep EXCEPT ![c] = IF Guard("rejected_start_keeps_waiting") THEN "Waiting" ELSE "StartResp"]
-          /\ Reply(c, "VStart", len, "plain", "HttpError", {}) /\ UNCHANGED exch
+          /\ Reply(c, "VStart", len, "plain", "HttpError", {}) /\ UNCHANGED <<exch, same>>
      ELSE /\ vstep' = [vstep EXCEPT ![c] = "StartResp"]
           /\ exch' = [exch EXCEPT ![c] = @ + 1]
+          /\ same' = [same EXCEPT ![c] = (len = "sameA" /\ ~Guard("accessory_key_fresh_per_exchange"))]
           /\ Reply(c, "VStart", len, "plain", "V2", {})
-  /\ sok' = IF vstep[c] = "Waiting" /\ len = "ok" THEN sok \cup {c} ELSE sok \ {c}
+  /\ sok' = IF vstep[c] = "Waiting" /\ len \in {"ok", "sameA"} THEN sok \cup {c} ELSE sok \ {c}
   /\ UNCHANGED <<mode, verified, open, legitPaired, extra, val, subs, cb, cache>>
 
 \* ---- pair-verify finish: :66-72 (defer reset), 145-199, and the endpoint's switch pair-verify.go:62-75
@@ -84,6 +91,8 @@ VStart(c, len) ==
 \*         stale     signed by the right key over the PREVIOUS exchange's material
 \*         reordered signed by the right key over the material in the wrong order
 \*         replayed  a finish box recorded from the legitimate controller's exchange
+\*         replayown the genuine finish of the PREVIOUS exchange of this very connection, byte for byte: it opens and verifies
+\*                   only if that exchange had the same material (same[c])
 \*         unknown   names nobody stored
 \*         self      names the accessory's own id (which IS an entity in the database, hap/device.go:25-36)
 \*         selfkey   names the accessory's own id, signed with the ACCESSORY's long-term key over this exchange's material:
@@ -93,8 +102,8 @@ VStart(c, len) ==
 \*         crossname names ANOTHER controller ("x", stored iff the extra pairing was added), signed by the legitimate
 \*                   controller's key over this exchange's material with the claimed name: one paired controller posing as another
 \*         badseal   box under a wrong key          short  box shorter than a tag     badtlv  garbage inside a good box
-NeedsSecret(kind) == kind \in {"genuine", "wrongkey", "stale", "reordered", "unknown", "self", "selfkey", "reflect", "badtlv", "crossname"}
-NameOf(kind) == CASE kind \in {"genuine", "wrongkey", "stale", "reordered"} -> "legit"
+NeedsSecret(kind) == kind \in {"replayown", "genuine", "wrongkey", "stale", "reordered", "unknown", "self", "selfkey", "reflect", "badtlv", "crossname"}
+NameOf(kind) == CASE kind \in {"genuine", "wrongkey", "stale", "reordered", "replayown"} -> "legit"
                   [] kind \in {"self", "selfkey", "reflect"} -> "acc"
                   [] kind = "crossname" -> "x"
                   [] OTHER -> "nobody"
@@ -105,18 +114,19 @@ KeyOf(c, kind) == IF Guard("key_looked_up_per_finish") \/ cache[c] = "none" THEN
 \* genuine and crossname are signed with the legitimate controller's key over the right material (with the claimed name)
 SignatureValid(c, kind) == \/ kind \in {"genuine", "crossname"} /\ c \in LegitConn /\ KeyOf(c, kind) = "legit" /\ legitPaired
                            \/ kind = "selfkey" /\ KeyOf(c, kind) = "acc"
+                           \/ kind = "replayown" /\ same[c] /\ KeyOf(c, kind) = "legit" /\ legitPaired
 NameKnown(c, kind) == Stored(KeyOf(c, kind))
 
 VFinish(c, kind) ==
   /\ Plain(c) /\ kind \in FinishKinds
   /\ NeedsSecret(kind) => exch[c] > 0                           \* sealing needs the exchange's key
-  /\ kind \in {"genuine", "stale", "reordered", "crossname"} => c \in LegitConn   \* needs the paired long-term secret key
-  /\ kind = "stale" => exch[c] >= 2
+  /\ kind \in {"genuine", "stale", "reordered", "crossname", "replayown"} => c \in LegitConn   \* needs the paired long-term secret key
+  /\ kind \in {"stale", "replayown"} => exch[c] >= 2
   /\ kind = "replayed" => c \in EvilConn /\ \E l \in LegitConn : exch[l] > 0
   /\ vstep' = [vstep EXCEPT ![c] = "Waiting"]                    \* defer verify.reset()
   /\ IF vstep[c] # "StartResp"
      THEN Reply(c, "VFinish", kind, "plain", "HttpError", {}) /\ UNCHANGED <<mode, verified>>
-     ELSE IF kind \in {"short", "badseal", "replayed"}
+     ELSE IF kind \in {"short", "badseal", "replayed"} \/ (kind = "replayown" /\ ~same[c])       \* the box does not open
      THEN Reply(c, "VFinish", kind, "plain", "V4err", {}) /\ UNCHANGED <<mode, verified>>
      ELSE IF kind = "badtlv" \/ ~NameKnown(c, kind)
      THEN Reply(c, "VFinish", kind, "plain", "HttpError", {}) /\ UNCHANGED <<mode, verified>>
@@ -128,18 +138,18 @@ VFinish(c, kind) ==
           /\ Reply(c, "VFinish", kind, "plain", "V4err", {})
           /\ mode' = [mode EXCEPT ![c] = IF Guard("session_installed_only_without_error") THEN "plain" ELSE "enc"]
           /\ UNCHANGED verified
-  /\ cache' = IF /\ vstep[c] = "StartResp" /\ kind \notin {"short", "badseal", "replayed", "badtlv"}
+  /\ cache' = IF /\ vstep[c] = "StartResp" /\ kind \notin {"short", "badseal", "replayed", "badtlv"} /\ ~(kind = "replayown" /\ ~same[c])
                  /\ cache[c] = "none" /\ Stored(NameOf(kind))
               THEN [cache EXCEPT ![c] = NameOf(kind)] ELSE cache
   /\ sok' = sok \ {c}
-  /\ UNCHANGED <<exch, open, legitPaired, extra, val, subs, cb>>
+  /\ UNCHANGED <<exch, open, legitPaired, extra, val, subs, cb, same>>
 
 \* ---- pair-setup noise a peer without the setup code can produce; its effect on the store is C02's business,
 \* here it must neither verify the connection nor change anything.
 PSNoise(c, kind) ==
   /\ Plain(c) /\ kind \in Noise
   /\ Reply(c, "PSNoise", kind, "plain", "Any", {})
-  /\ UNCHANGED <<vstep, exch, mode, verified, open, legitPaired, extra, val, subs, cb, cache, sok>>
+  /\ UNCHANGED <<vstep, exch, mode, verified, open, legitPaired, extra, val, subs, cb, cache, sok, same>>
 
 \* ---- the gating layer
 Passes(c) == IF Guard("authenticate_checks_verified") THEN mode[c] = "enc" ELSE TRUE
@@ -174,13 +184,13 @@ Req(c, op, form) ==
                /\ Effect(c, op) /\ UNCHANGED open
      ELSE /\ Reply(c, "Req", op, form, "Served", IF op = "PutVal" THEN Targets(c) ELSE {})
           /\ Effect(c, op) /\ UNCHANGED open
-  /\ UNCHANGED <<vstep, exch, mode, verified, cache, sok>>
+  /\ UNCHANGED <<vstep, exch, mode, verified, cache, sok, same>>
 
 \* the application changes the value: every open subscribed connection gets an EVENT
 LocalSet ==
   /\ val' = 1 - val
   /\ Reply("app", "LocalSet", "none", "none", "none", Targets("app"))
-  /\ UNCHANGED <<vstep, exch, mode, verified, open, legitPaired, extra, subs, cb, cache, sok>>
+  /\ UNCHANGED <<vstep, exch, mode, verified, open, legitPaired, extra, subs, cb, cache, sok, same>>
 
 \* hap/connection.go:111-118
 Close(c) ==
@@ -189,7 +199,7 @@ Close(c) ==
   /\ subs' = subs \ {c}
   /\ Reply(c, "Close", "none", "none", "none", {})
   /\ sok' = sok \ {c}
-  /\ UNCHANGED <<vstep, exch, mode, verified, legitPaired, extra, val, cb, cache>>
+  /\ UNCHANGED <<vstep, exch, mode, verified, legitPaired, extra, val, cb, cache, same>>
 
 Next == \/ \E c \in Conn :
              \/ \E len \in StartLens : VStart(c, len)
@@ -220,5 +230,5 @@ TypeOK == /\ vstep \in [Conn -> {"Waiting", "StartResp"}] /\ exch \in [Conn -> 0
           /\ mode \in [Conn -> {"plain", "enc"}] /\ verified \in [Conn -> BOOLEAN]
           /\ val \in {0, 1} /\ subs \subseteq Conn /\ cb \in 0..2
 
-View == <<vstep, exch, mode, verified, open, legitPaired, extra, val, subs, cb, cache, sok>>
+View == <<vstep, exch, mode, verified, open, legitPaired, extra, val, subs, cb, cache, sok, same>>
 =======================================================================
